@@ -38,6 +38,7 @@ from ..constants import CompressionAlgorithm
 from ..constants import HashAlgorithm
 from ..constants import PubKeyAlgorithm
 from ..constants import SignatureType
+from ..constants import String2KeyType
 from ..constants import SymmetricKeyAlgorithm
 from ..constants import TrustFlags
 from ..constants import TrustLevel
@@ -981,6 +982,12 @@ class PrivKeyV4(PrivKey, PubKeyV4):
         self.update_hlen()
 
     def unprotect(self, passphrase):
+        if self.keymaterial.s2k.specifier == String2KeyType.GNUExtension:
+            # a stub (gnu-dummy, or a pointer to a smartcard): the secret key material is not in this packet,
+            # so there is nothing to decrypt and this key stays as it is - without secret key material
+            del passphrase
+            return
+
         self.keymaterial.decrypt_keyblob(passphrase)
         del passphrase
 
